@@ -831,7 +831,11 @@ class Interp:
 
     def _truth(self, v: Any, node: ast.AST) -> bool:
         try:
-            return bool(v)
+            b = bool(v)
+            # condition coverage: which truth values every tested expression took (read by rules that need to know whether a
+            # guard was ever true / ever false on their input classes)
+            self.__dict__.setdefault("outcomes", set()).add((id(node), b))
+            return b
         except _PASS:
             raise
         except Exception as e:
